@@ -20,7 +20,7 @@ PROPS = {
     'C01': {'gens': ['c01', 'c01p'], 'translate': ['G:guards', 'P:ecdsa'], 'configs': C(['default', 'int64'])},
     'C02': {'gens': ['c02', 'c02p'], 'translate': ['G:guards', 'P:schnorr'], 'configs': C(['default', 'int64'])},
     'C03': {'gens': ['c03'], 'translate': ['G:guards'], 'configs': C(['default', 'int64'])},
-    'C04': {'gens': ['c04'], 'translate': ['G:guards'], 'configs': C(['default', 'int64'])},
+    'C04': {'gens': ['c04', 'c04p'], 'translate': ['G:guards', 'P:keys'], 'configs': C(['default', 'int64'])},
     'C05': {'gens': ['c05', 'c05k'], 'translate': ['K:field5x52', 'K:ct', 'K:field10x26', 'K:scalar4x64', 'K:scalar8x32', 'K:ct32', 'K:int128struct', 'F:group', 'F:ellswift', 'F:generator'], 'configs': C(['default', 'asm', 'int64', 'int128struct'], ALLCONF + ['o2']),
             'assumptions': ['x86-64 assembly, safegcd modinv and ecmult internals are tied by correspondence only']},
     'C06': {'gens': ['c06'], 'translate': ['K:ct', 'K:ct32'], 'ct_valgrind': True, 'configs': C(['default', 'int64'], ['default', 'int64', 'verify']),
